@@ -8,7 +8,7 @@
 (* Trace_Packet applies the very same predicates to observations recorded   *)
 (* from the real code, so the property is evaluated by TLC on both sides.   *)
 (***************************************************************************)
-EXTENDS Packet
+EXTENDS Codegen
 
 UObsOf(m) == [st |-> m.st, endc |-> m.cur, err |-> m.err, reads |-> m.reads, evs |-> m.evs,
               result |-> m.result]
